@@ -1,6 +1,6 @@
 """C16 - fork(): proofs (Fork/Fork.v: call_rcu PAUSE handshake for every schedule; BpArena prune); sequential differential of the bp registry prune (urcu_bp_prune_registry)
 against the extracted arena model; real fork() probes on the memb flavor (default / per-CPU / per-thread helpers with pending callbacks) and on the bp flavor (other readers
-registered, one inside a section behind a freed slot): exactly-once callbacks in parent and child, bounded termination of synchronize_rcu / rcu_barrier in the child, child registry."""
+registered, one inside a section behind a freed slot): exactly-once callbacks in parent and child, bounded termination of synchronize_rcu / rcu_barrier in the child, child registry; the hash table's work queue across fork (with and without a call_rcu helper)."""
 import re
 from vlib import *
 from props import C15seq
@@ -8,7 +8,7 @@ FILES = ['src/urcu-call-rcu-impl.h', 'src/urcu-bp.c', 'src/urcu.c', 'src/rculfha
 SRCS = [REPO + s for s in ('/src/wfcqueue.c', '/src/wfstack.c', '/src/compat_futex.c', '/src/compat_arch.c')]
 TRUSTED = ['Coq 8.16.1 kernel; no axioms', 'extraction: ExtrOcamlBasic only; ocaml/bparena_driver.ml', 'harness: seqdiff/bparena.c (prune operation), seqdiff/fork_callrcu.c, seqdiff/fork_bp.c (real fork(), real threads)',
            'modelled: helpers as phases idle / spliced / invoking / paused with queue, private batch and registration flag; the kernel\'s fork semantics (copy of memory, only the calling thread survives) and glibc\'s atfork/malloc '
-           'interplay are not modelled; the hash-table resize worker across fork is not exercised']
+           'interplay are not modelled; the hash table across fork: creation / use / worker-side destruction of an auto-resizing table in parent and child (seqdiff/fork_lfht.c); a resize in flight at the fork is not exercised']
 def run(ctx):
     ctx.cov['source_hash'] = source_hash(FILES)
     prove(ctx)
@@ -21,12 +21,14 @@ def run(ctx):
         if am: C15seq.diff_run(ctx, 'BpArena.prune / alloc / free vs urcu_bp_prune_registry / arena_alloc / cleanup_thread (INIT_READER_COUNT %s)' % tag, exe, am,
                                [[exe, '700', str(ctx.seed * 100 + 50 + i), str(i % 3)] for i in range(nseq)], 'harness/seqdiff/bparena.c')
     probes = [('fork_callrcu', 'seqdiff/fork_callrcu.c', ['3' if ctx.quick() else '20', '0']), ('fork_callrcu', 'seqdiff/fork_callrcu.c', ['3' if ctx.quick() else '20', '1']),
-              ('fork_bp', 'seqdiff/fork_bp.c', ['4' if ctx.quick() else '24'])]
+              ('fork_bp', 'seqdiff/fork_bp.c', ['4' if ctx.quick() else '24']),
+              ('fork_lfht', 'seqdiff/fork_lfht.c', ['3' if ctx.quick() else '15', '0']), ('fork_lfht', 'seqdiff/fork_lfht.c', ['3' if ctx.quick() else '15', '1'])]
+    LFHT = [REPO + x for x in ('/src/rculfhash.c', '/src/rculfhash-mm-order.c', '/src/rculfhash-mm-chunk.c', '/src/rculfhash-mm-mmap.c', '/src/workqueue.c')]
     built = {}
     for name, src, args in probes:
         if name not in built:
             exe = os.path.join(BUILD, name)
-            rc, so, se = sh(['gcc', '-O1', '-g', '-w', '-I' + REPO + '/include', '-I' + REPO + '/src', os.path.join(HARN, src)] + SRCS + ['-o', exe, '-lpthread'])
+            rc, so, se = sh(['gcc', '-O1', '-g', '-w', '-I' + REPO + '/include', '-I' + REPO + '/src', os.path.join(HARN, src)] + SRCS + (LFHT if name == 'fork_lfht' else []) + ['-o', exe, '-lpthread'])
             built[name] = None if rc else exe
             if rc: ctx.fail('harness', 'build of ' + src, se[-600:])
         exe = built[name]
